@@ -85,6 +85,15 @@ fn build_pack(ctx: &mut Ctx, case: u64, rng: &mut Rng, nclusters: usize, comp: C
 pub fn run(ctx: &mut Ctx) {
     let mut rng = Rng::new(ctx.seed ^ 0xC07);
     let n = if ctx.quick() { 6 } else { 60 };
+    // the forced schedules first (deterministic, seconds), numbered after the random ones
+    let nr = if ctx.quick() { 2 } else { 8 };
+    for k in 0..nr as u64 {
+        let case = n as u64 + k;
+        if ctx.wants(case) {
+            let mut crng = rng.fork(case);
+            rendezvous(ctx, case, &mut crng, [4usize, 2, 8, 3, 16, 5, 32, 6][k as usize % 8]);
+        }
+    }
     for case in 0..n as u64 {
         let mut crng = rng.fork(case);
         if !ctx.wants(case) {
@@ -326,4 +335,131 @@ pub fn run(ctx: &mut Ctx) {
         drop(pack);
         let _ = std::fs::remove_dir_all(ctx.work.join(format!("c07-{}", case)));
     }
+}
+
+/// Forced schedule: R reader threads are all blocked inside `wait_for` on the *same* decode buffer,
+/// each waiting for the last bytes of the cluster, before the decoder is allowed to publish anything
+/// (the decoder thread is held in the `sv_written` hook until R `sv_wait` events have been seen for
+/// the cluster, plus a grace period for the threads to reach the condition variable).  Every reader
+/// must then be woken by the publishes that follow and return the stored bytes.  One cluster after
+/// the other (each is decoded for the first time), so the schedule is reproduced for every cluster.
+fn rendezvous(ctx: &mut Ctx, case: u64, rng: &mut Rng, nthreads: usize) {
+    use std::sync::atomic::AtomicBool;
+    let comp = [Comp::Zstd(1), Comp::Lz4(1), Comp::Lzma(0)][(case % 3) as usize];
+    let nclusters = 6usize;
+    let (built, datas) = match build_pack(ctx, case, rng, nclusters, comp) {
+        Some(x) => x,
+        None => return,
+    };
+    let file_bytes = std::fs::read(&built.file).unwrap();
+    let dec = match crate::cpdec::decode(&file_bytes) {
+        Some(d) => d,
+        None => {
+            ctx.fail(case, "framing", "cannot parse the created pack");
+            return;
+        }
+    };
+    struct Gate {
+        armed: AtomicBool,
+        waiters: AtomicU64,
+        want: u64,
+        held: AtomicU64,
+        gate_timeouts: AtomicU64,
+    }
+    let gate = Arc::new(Gate { armed: AtomicBool::new(false), waiters: AtomicU64::new(0), want: nthreads as u64, held: AtomicU64::new(0), gate_timeouts: AtomicU64::new(0) });
+    {
+        let g = Arc::clone(&gate);
+        jbk::verif_hooks::set_hook(Some(Arc::new(move |name, _a, _b| match name {
+            "sv_wait" => {
+                g.waiters.fetch_add(1, Ordering::SeqCst);
+            }
+            "sv_written" => {
+                if g.armed.swap(false, Ordering::SeqCst) {
+                    g.held.fetch_add(1, Ordering::SeqCst);
+                    let t0 = std::time::Instant::now();
+                    while g.waiters.load(Ordering::SeqCst) < g.want {
+                        if t0.elapsed() > std::time::Duration::from_secs(3) {
+                            g.gate_timeouts.fetch_add(1, Ordering::SeqCst);
+                            break;
+                        }
+                        std::thread::sleep(std::time::Duration::from_micros(200));
+                    }
+                    // let the readers get from the hook into Condvar::wait
+                    std::thread::sleep(std::time::Duration::from_millis(25));
+                }
+            }
+            _ => {}
+        })));
+    }
+    let reader: jbk::Reader = jbk::FileSource::open(&built.file).unwrap().into();
+    let pack = match jbk::reader::ContentPack::new(reader) {
+        Ok(p) => Arc::new(p),
+        Err(e) => {
+            jbk::verif_hooks::set_hook(None);
+            ctx.fail(case, "open", &format!("{:?}", util::err_kind(&e)));
+            return;
+        }
+    };
+    let datas = Arc::new(datas);
+    let mut clusters_done = 0u64;
+    'clusters: for ci in 0..nclusters {
+        // the last content held by cluster ci
+        let id = match dec.contents.iter().enumerate().filter(|(_, c)| c.0 == ci).map(|(i, _)| i).last() {
+            Some(i) => i,
+            None => continue,
+        };
+        gate.waiters.store(0, Ordering::SeqCst);
+        gate.armed.store(true, Ordering::SeqCst);
+        let barrier = Arc::new(std::sync::Barrier::new(nthreads));
+        let (tx, rx) = std::sync::mpsc::channel::<(usize, Result<bool, String>)>();
+        for t in 0..nthreads {
+            let pack = Arc::clone(&pack);
+            let datas = Arc::clone(&datas);
+            let tx = tx.clone();
+            let barrier = Arc::clone(&barrier);
+            std::thread::spawn(move || {
+                barrier.wait();
+                let res = std::panic::catch_unwind(std::panic::AssertUnwindSafe(|| -> Result<bool, String> {
+                    let region = pack.get_content(jbk::ContentIdx::from(id as u32)).map_err(|e| format!("err:{}", util::err_kind(&e)))?.ok_or("none")?;
+                    let mut v = vec![];
+                    region.stream().read_to_end(&mut v).map_err(|e| format!("io:{e}"))?;
+                    Ok(v == datas[id])
+                }));
+                let _ = tx.send((t, res.unwrap_or_else(|_| Err(format!("panic: {}", util::take_panic())))));
+            });
+        }
+        drop(tx);
+        let deadline = std::time::Instant::now() + std::time::Duration::from_secs(30);
+        let mut done = 0;
+        while done < nthreads {
+            match rx.recv_timeout(deadline.saturating_duration_since(std::time::Instant::now())) {
+                Ok((t, Ok(true))) => {
+                    let _ = t;
+                    done += 1;
+                }
+                Ok((t, Ok(false))) => {
+                    done += 1;
+                    ctx.fail(case, "wrong-bytes", &format!("forced schedule, cluster {ci}: thread {t} read other bytes than stored for content {id}"));
+                }
+                Ok((t, Err(e))) => {
+                    done += 1;
+                    ctx.fail(case, "read-error", &format!("forced schedule, cluster {ci}: thread {t} reading content {id}: {e}"));
+                }
+                Err(_) => break,
+            }
+        }
+        if done < nthreads {
+            ctx.fail(case, "timeout", &format!("forced schedule: {} reader threads wait for the end of cluster {} while it is decoded; {} of them were never woken although the cluster was decoded to its end (lost wake-up)", nthreads, ci, nthreads - done));
+            break 'clusters;
+        }
+        clusters_done += 1;
+    }
+    jbk::verif_hooks::set_hook(None);
+    ctx.add("forced_schedule_clusters", clusters_done);
+    ctx.add("forced_schedule_decoder_held", gate.held.load(Ordering::SeqCst));
+    ctx.add("forced_schedule_gate_timeouts", gate.gate_timeouts.load(Ordering::SeqCst));
+    ctx.count(&format!("forced_schedule_threads:{}", nthreads));
+    ctx.sample(format!("forced schedule: {} threads blocked on the end of each of {} {} clusters before the decoder's first publish; decoder held {} times", nthreads, nclusters, comp.name(), gate.held.load(Ordering::SeqCst)));
+    ctx.case_done(fnv(format!("rv{}{}", case, nthreads).as_bytes()), clusters_done > 0);
+    let _ = std::fs::remove_dir_all(ctx.work.join(format!("c07-{}", case)));
 }
